@@ -189,7 +189,9 @@ def fam_handles(seed, big):
             i += 1
     # capture with far more input than the child reads: the call may fail (EPIPE) but must not leave the child behind
     for handle in ("capture_data", "pl_capture_data"):
-        for script in (["x0"], ["r10", "x0"], ["R", "x0"], ["s30", "x1"], ["ci", "s20", "x0"]):
+        for script in (["x0"], ["r10", "x0"], ["R", "x0"], ["s30", "x1"], ["ci", "s20", "x0"],
+                       # closes its outputs first and only then reads its input to the end
+                       ["co", "ce", "s100", "R", "x0"], ["wo10", "co", "ce", "R", "x0"]):
             out.append({"id": "h%d" % i, "kind": "handle", "class": "handle-capture-data", "handle": handle,
                         "script": script, "write": 4 << 20, "detached": False, "may_fail": True})
             i += 1
